@@ -259,7 +259,7 @@ def check(rec, kind, idx, rng, tier):
     P = rec.call(xrspatial.proximity, r, **kw); A = rec.call(xrspatial.allocation, r, **kw); D = rec.call(xrspatial.direction, r, **kw)
     xs = np.tile(r[names[1]].values, H).reshape(H, W); ys = np.repeat(r[names[0]].values, W).reshape(H, W)
     pay = dict(kind='public API', img=img, kwargs={k: v for k, v in kw.items()}, geom=geom, layout=layout, dims=names)
-    if idx == 0:
+    if len(rec.samples) < 1:
         rec.sample(pay)
     if any(hasattr(o, 'exc') for o in (P, A, D)):
         rec.violation('proximity.raises', 'proximity/allocation/direction raised: %r' % ([P, A, D],), pay); return
